@@ -2,6 +2,7 @@
 package mount
 
 import (
+	"errors"
 	"io"
 	"path"
 	"strings"
@@ -206,6 +207,11 @@ func (fs *FS) Rename(oldname, newname string) error {
 	defer func() { _ = newFile.Close() }()
 	_, err = io.Copy(newFileWriter, oldFile)
 	if err != nil {
+		_ = hackpadfs.Remove(newMount, newSubPath)
+		return linkErr(err)
+	}
+	// the moved file keeps its mode: OpenFile only applies permission bits, and only to a newly created file
+	if err := hackpadfs.Chmod(newMount, newSubPath, oldInfo.Mode()); err != nil && !errors.Is(err, hackpadfs.ErrNotImplemented) {
 		_ = hackpadfs.Remove(newMount, newSubPath)
 		return linkErr(err)
 	}
